@@ -37,4 +37,15 @@ CHECKS["C13"] = dict(
           "were fixed in /repo (list / (1,1) time forms; missing time=None defaults)."),
     technique="Coq proof over translator-generated Gallina model + exact vm_compute correspondence + structural tables",
     design="4/C13")
+CHECKS["C20"] = dict(
+    text=("Theorems (Coq) about the Gallina validators regenerated each run from mellon/validation.py: validate_nn_distances on a vector of "
+          "ANY length with any pattern of NaN/+-inf/0/negative entries returns ValueError when no entry is valid and otherwise the same-length "
+          "vector with valid entries untouched and all others replaced by the smallest valid entry; validate_bool/positive_int/positive_float/"
+          "float_or_int/float characterised for EVERY value of the value universe (accepted values have the promised kind, NaN refused, every "
+          "refusal is the documented exception class). The models are executed in Coq on the property's value grammar and on all dirty "
+          "patterns up to length 3 and compared exactly; dirty-data fits check finiteness (support)."),
+    note=("Trusted: Coq kernel; translator; CPython/JAX primitive semantics of PyVal.v (exact comparison each run). Float overflow on accepted "
+          "inputs and the 'no NaN predictions' clause are runtime facts covered by the fits only (partial). domain_safe of DESIGN.md is part of C03."),
+    technique="Coq proof over translator-generated Gallina model + exact vm_compute correspondence + dirty-data fits",
+    design="4/C20")
 NOT_YET = {}
